@@ -11,8 +11,11 @@
         (`dispatchAll_nft_exact`), non-honest token ledgers (`dispatchAll_cw20_other`);
   * §3  exact handler specifications of the eight deposit handlers (`DepositRecords`);
   * §4  `step` for deposits and exits: the world after an accepted deposit / exit message;
-  * §5  one record's share of the obligations (`asum_ge_of_mem`, `owedNative_ge_*`).
-  Core library only.
+  * §5  one record's share of the obligations (`asum_ge_of_mem`, `owedNative_ge_*`);
+  * §6  what well-formedness says about a record that is to be cashed out;
+  * §7  `RecInv`: which token contracts / collections the records name and who owns the records —
+        an invariant every accepted message preserves (`execute_recInv`).
+  (The sections appear in the order §1, §2, §5, §4, §6, §3, §7.)  Core library only.
 -/
 import Fuzion.Lemmas.AcctLemmas
 import Fuzion.Lemmas.FrameLemmas
@@ -703,6 +706,18 @@ def HonestAssets (w : World) (g : GBal) : Prop :=
 instance (w : World) (g : GBal) : Decidable (HonestAssets w g) := by
   unfold HonestAssets; exact inferInstance
 
+theorem HonestAssets.of_coreEq {w w' : World} (h : CoreEq w w') {g : GBal} (hh : HonestAssets w g) :
+    HonestAssets w' g :=
+  ⟨fun c hc => by rw [h.isHonest20]; exact hh.1 c hc, fun n hn => by rw [h.isHonest721]; exact hh.2 n hn⟩
+
+/-- erasing the head key of a duplicate-free table leaves the tail -/
+theorem aerase_head {κ ν : Type} [DecidableEq κ] {k : κ} {v : ν} {l : List (κ × ν)}
+    (nd : (akeys ((k, v) :: l)).Nodup) : aerase k ((k, v) :: l) = l := by
+  simp only [akeys_cons, List.nodup_cons] at nd
+  have : aerase k ((k, v) :: l) = aerase k l := by simp [aerase]
+  rw [this]
+  exact al_aerase_absent (alookup_eq_none_iff.2 nd.1)
+
 /-- the marketplace holds what the balance `g` and the pending fee `fee` name -/
 structure Covers (w : World) (g : GBal) (fee : Option Coin) : Prop where
   bank : ∀ d, coinAmt g.native d + feeAmt fee d ≤ lget w.bank (w.self, d)
@@ -760,5 +775,678 @@ theorem execute_nil_withdrawPurchased (m : Market) (env : Env) (s id : Nat) :
 theorem execute_nil_removeBucket (m : Market) (env : Env) (s id : Nat) :
     execute m env s [] (.removeBucket id) = withdrawBucket m env s id := by
   simp [execute, ExecMsg.takesCoins]
+
+/-! ## §3 exact specifications of the eight deposit handlers
+
+(`Inner.toExec`, `DepositRecords` are used in the statements of C05 and quoted there.) -/
+
+/-- the four deposit messages, as sent directly with native coins attached -/
+def Inner.toExec : Inner → ExecMsg
+  | .createListing id c => .createListing id c
+  | .addToListing id => .addToListing id
+  | .createBucket id => .createBucket id
+  | .addToBucket id => .addToBucket id
+
+/-- **What an accepted deposit `i` of depositor `x` does to the record tables** (`m` before, `m'`
+    after).  `g0` is the deposit as a balance of its own (what a *created* record holds);
+    `P g nf` relates the old balance `g` of a *topped-up* record to its new balance `nf`.
+    * create bucket `id`: no bucket was filed under `(x, id)`, the id was unused; `m'` is `m` with
+      the bucket `⟨x, g0, no fee⟩` filed under `(x, id)` and `id` logged as used;
+    * top up bucket `id`: the bucket `r` under `(x, id)` existed with owner `x`; `m'` is `m` with
+      `r`'s balance replaced by `nf` (owner and pending fee kept: `{ r with funds := nf }`);
+    * create listing `id`: no listing with this id existed (under any account), the id was unused,
+      the whitelist and the ask validated to `wl` and `ask`; `m'` is `m` with the new preparing
+      listing `newListing x id wl g0 ask` (no times, no claimant, no fee) filed under `(x, id)`
+      and `id` logged as used;
+    * top up listing `id`: the listing `l` under `(x, id)` existed, created by `x`, in preparation,
+      unclaimed; `m'` is `m` with `l`'s goods replaced by `nf` (`{ l with forSale := nf }`: ask,
+      whitelist, status, times, fee kept).
+    In every case the *other* table, the other id log and the fee configuration are literally
+    unchanged and every other key of the written table keeps its record (`ainsert` of one key). -/
+def DepositRecords (m m' : Market) (x : Nat) (g0 : GBal) (P : GBal → GBal → Prop) : Inner → Prop
+  | .createBucket id =>
+    alookup (x, id) m.buckets = none ∧ id ∉ m.bucketUsed ∧
+    m' = { m with buckets := ainsert (x, id) ⟨x, g0, none⟩ m.buckets, bucketUsed := id :: m.bucketUsed }
+  | .addToBucket id =>
+    ∃ r nf, alookup (x, id) m.buckets = some r ∧ r.owner = x ∧ P r.funds nf ∧
+      m' = { m with buckets := ainsert (x, id) { r with funds := nf } m.buckets }
+  | .createListing id c =>
+    ∃ wl ask, findById id m.listings = none ∧ id ∉ m.listingUsed ∧
+      checkWhitelist x c.whitelist = some wl ∧ validateAsk c.ask = some ask ∧
+      m' = { m with listings := ainsert (x, id) (newListing x id wl g0 ask) m.listings,
+                    listingUsed := id :: m.listingUsed }
+  | .addToListing id =>
+    ∃ l nf, alookup (x, id) m.listings = some l ∧ l.creator = x ∧ l.status = .preparing ∧
+      l.claimant = none ∧ P l.forSale nf ∧
+      m' = { m with listings := ainsert (x, id) { l with forSale := nf } m.listings }
+
+theorem DepositRecords.mono {m m' : Market} {x : Nat} {g0 : GBal} {P Q : GBal → GBal → Prop}
+    (hPQ : ∀ g nf, P g nf → Q g nf) {i : Inner} (h : DepositRecords m m' x g0 P i) :
+    DepositRecords m m' x g0 Q i := by
+  cases i with
+  | createBucket id => exact h
+  | createListing id c => exact h
+  | addToBucket id =>
+    obtain ⟨r, nf, h1, h2, h3, h4⟩ := h
+    exact ⟨r, nf, h1, h2, hPQ _ _ h3, h4⟩
+  | addToListing id =>
+    obtain ⟨l, nf, h1, h2, h3, h4, h5, h6⟩ := h
+    exact ⟨l, nf, h1, h2, h3, h4, hPQ _ _ h5, h6⟩
+
+/-- the handler a fungible deposit (`Funds`) of kind `i` by `x` runs -/
+def depositFunds (m : Market) (F : Funds) (x : Nat) : Inner → HRes
+  | .createListing id c => createListing m x F c id
+  | .addToListing id => addToListing m F x id
+  | .createBucket id => createBucket m F x id
+  | .addToBucket id => addToBucket m F x id
+
+/-- the handler an NFT deposit of kind `i` by `x` runs -/
+def depositNft (m : Market) (n : Nft) (x : Nat) : Inner → HRes
+  | .createListing id c => createListingNft m x n c id
+  | .addToListing id => addToListingNft m x n id
+  | .createBucket id => createBucketNft m x n id
+  | .addToBucket id => addToBucketNft m x n id
+
+theorem depositFunds_spec {m m' : Market} {F : Funds} {x : Nat} {i : Inner} {out : List OutMsg}
+    (h : depositFunds m F x i = .ok (m', out)) :
+    out = [] ∧ normalizedCheck F = true ∧
+    DepositRecords m m' x (fromBalance F) (fun g nf => addTokens g F = some nf) i := by
+  cases i with
+  | createBucket id =>
+    simp only [depositFunds] at h
+    unfold createBucket at h
+    obtain ⟨_, h⟩ := ite_err_ok h
+    obtain ⟨h2, h⟩ := ite_err_ok h
+    obtain ⟨h3, h⟩ := ite_err_ok h
+    obtain ⟨h4, h⟩ := ite_err_ok h
+    simp only [Except.ok.injEq, Prod.mk.injEq] at h
+    obtain ⟨rfl, rfl⟩ := h
+    exact ⟨rfl, by simpa using h4, isSome_false_none h3, h2, rfl⟩
+  | addToBucket id =>
+    simp only [depositFunds] at h
+    unfold addToBucket at h
+    obtain ⟨h1, h⟩ := ite_err_ok h
+    split at h
+    · cases h
+    rename_i b hb
+    obtain ⟨h2, h⟩ := ite_err_ok h
+    split at h
+    · cases h
+    rename_i nf hnf
+    obtain ⟨_, h⟩ := ite_err_ok h
+    obtain ⟨_, h⟩ := ite_err_ok h
+    simp only [Except.ok.injEq, Prod.mk.injEq] at h
+    obtain ⟨rfl, rfl⟩ := h
+    have ho : b.owner = x := by
+      have : x = b.owner := by simpa using h2
+      exact this.symm
+    exact ⟨rfl, by simpa using h1, b, nf, hb, ho, hnf, rfl⟩
+  | createListing id c =>
+    simp only [depositFunds] at h
+    unfold createListing at h
+    obtain ⟨_, h⟩ := ite_err_ok h
+    obtain ⟨h2, h⟩ := ite_err_ok h
+    obtain ⟨h3, h⟩ := ite_err_ok h
+    obtain ⟨h4, h⟩ := ite_err_ok h
+    split at h
+    · cases h
+    rename_i wl hwl
+    split at h
+    · cases h
+    rename_i ask hask
+    simp only [Except.ok.injEq, Prod.mk.injEq] at h
+    obtain ⟨rfl, rfl⟩ := h
+    exact ⟨rfl, by simpa using h2, wl, ask, isSome_false_none h4, h3, hwl, hask, rfl⟩
+  | addToListing id =>
+    simp only [depositFunds] at h
+    unfold addToListing at h
+    obtain ⟨h1, h⟩ := ite_err_ok h
+    split at h
+    · cases h
+    rename_i l hl
+    obtain ⟨h2, h⟩ := ite_err_ok h
+    obtain ⟨h3, h⟩ := ite_err_ok h
+    obtain ⟨h4, h⟩ := ite_err_ok h
+    split at h
+    · cases h
+    rename_i nf hnf
+    obtain ⟨_, h⟩ := ite_err_ok h
+    obtain ⟨_, h⟩ := ite_err_ok h
+    simp only [Except.ok.injEq, Prod.mk.injEq] at h
+    obtain ⟨rfl, rfl⟩ := h
+    have ho : l.creator = x := by
+      have : x = l.creator := by simpa using h2
+      exact this.symm
+    exact ⟨rfl, by simpa using h1, l, nf, hl, ho, by simpa using h3, isSome_false_none h4, hnf, rfl⟩
+
+theorem depositNft_spec {m m' : Market} {n : Nft} {x : Nat} {i : Inner} {out : List OutMsg}
+    (h : depositNft m n x i = .ok (m', out)) :
+    out = [] ∧ DepositRecords m m' x (fromNft n) (fun g nf => nf = addNft g n) i := by
+  cases i with
+  | createBucket id =>
+    simp only [depositNft] at h
+    unfold createBucketNft at h
+    obtain ⟨_, h⟩ := ite_err_ok h
+    obtain ⟨h2, h⟩ := ite_err_ok h
+    obtain ⟨h3, h⟩ := ite_err_ok h
+    simp only [Except.ok.injEq, Prod.mk.injEq] at h
+    obtain ⟨rfl, rfl⟩ := h
+    exact ⟨rfl, isSome_false_none h3, h2, rfl⟩
+  | addToBucket id =>
+    simp only [depositNft] at h
+    unfold addToBucketNft at h
+    split at h
+    · cases h
+    rename_i b hb
+    obtain ⟨h2, h⟩ := ite_err_ok h
+    dsimp only at h
+    obtain ⟨_, h⟩ := ite_err_ok h
+    obtain ⟨_, h⟩ := ite_err_ok h
+    simp only [Except.ok.injEq, Prod.mk.injEq] at h
+    obtain ⟨rfl, rfl⟩ := h
+    have ho : b.owner = x := by
+      have : x = b.owner := by simpa using h2
+      exact this.symm
+    exact ⟨rfl, b, _, hb, ho, rfl, rfl⟩
+  | createListing id c =>
+    simp only [depositNft] at h
+    unfold createListingNft at h
+    obtain ⟨_, h⟩ := ite_err_ok h
+    obtain ⟨h3, h⟩ := ite_err_ok h
+    obtain ⟨h4, h⟩ := ite_err_ok h
+    split at h
+    · cases h
+    rename_i wl hwl
+    split at h
+    · cases h
+    rename_i ask hask
+    simp only [Except.ok.injEq, Prod.mk.injEq] at h
+    obtain ⟨rfl, rfl⟩ := h
+    exact ⟨rfl, wl, ask, isSome_false_none h4, h3, hwl, hask, rfl⟩
+  | addToListing id =>
+    simp only [depositNft] at h
+    unfold addToListingNft at h
+    split at h
+    · cases h
+    rename_i l hl
+    obtain ⟨h2, h⟩ := ite_err_ok h
+    obtain ⟨h3, h⟩ := ite_err_ok h
+    obtain ⟨h4, h⟩ := ite_err_ok h
+    dsimp only at h
+    obtain ⟨_, h⟩ := ite_err_ok h
+    obtain ⟨_, h⟩ := ite_err_ok h
+    simp only [Except.ok.injEq, Prod.mk.injEq] at h
+    obtain ⟨rfl, rfl⟩ := h
+    have ho : l.creator = x := by
+      have : x = l.creator := by simpa using h2
+      exact this.symm
+    exact ⟨rfl, l, _, hl, ho, by simpa using h3, isSome_false_none h4, rfl, rfl⟩
+
+/-- a native top-up adds exactly the attached coins, per denomination, and nothing else -/
+theorem addTokens_native {g nf : GBal} {cs : List Coin} (h : addTokens g (.native cs) = some nf) :
+    (∀ d, coinAmt nf.native d = coinAmt g.native d + coinAmt cs d) ∧ nf.cw20 = g.cw20 ∧
+    nf.nfts = g.nfts := by
+  simp only [addTokens] at h
+  split at h
+  · cases h
+  · rename_i n hn
+    simp only [Option.some.injEq] at h
+    subst h
+    exact ⟨fun d => coinAmt_addCoins hn d, rfl, rfl⟩
+
+/-- a CW20 top-up adds exactly the sent amount of exactly that token, and nothing else -/
+theorem addTokens_cw20 {g nf : GBal} {c : Coin} (h : addTokens g (.cw20 c) = some nf) :
+    nf.native = g.native ∧
+    (∀ t, coinAmt nf.cw20 t = coinAmt g.cw20 t + (if c.key = t then c.amount else 0)) ∧
+    nf.nfts = g.nfts := by
+  simp only [addTokens] at h
+  split at h
+  · cases h
+  · rename_i n hn
+    simp only [Option.some.injEq] at h
+    subst h
+    exact ⟨rfl, fun t => coinAmt_addCoin hn t, rfl⟩
+
+theorem execute_toExec (m : Market) (env : Env) (x : Nat) (funds : List Coin) (i : Inner) :
+    execute m env x funds i.toExec = depositFunds m (.native funds) x i := by
+  cases i <;> simp [execute, Inner.toExec, ExecMsg.takesCoins, depositFunds]
+
+theorem execute_receive_ok {m : Market} {env : Env} {t x amount : Nat} {inner : Option Inner}
+    {r : Market × List OutMsg}
+    (h : execute m env t [] (.receive (.valid x) amount inner) = .ok r) :
+    ∃ i, inner = some i ∧ depositFunds m (.cw20 ⟨t, amount⟩) x i = .ok r := by
+  have h' : receive m env t [] (.valid x) amount inner = .ok r := by
+    simpa [execute, ExecMsg.takesCoins] using h
+  unfold receive at h'
+  obtain ⟨_, h'⟩ := ite_err_ok h'
+  obtain ⟨_, h'⟩ := ite_err_ok h'
+  cases inner with
+  | none => cases h'
+  | some i =>
+    refine ⟨i, rfl, ?_⟩
+    simp only [rawValid] at h'
+    cases i <;> exact h'
+
+theorem execute_receiveNft_ok {m : Market} {env : Env} {c x tid : Nat} {inner : Option Inner}
+    {r : Market × List OutMsg}
+    (h : execute m env c [] (.receiveNft (.valid x) tid inner) = .ok r) :
+    ∃ i, inner = some i ∧ depositNft m ⟨c, tid⟩ x i = .ok r := by
+  have h' : receiveNft m env c [] (.valid x) tid inner = .ok r := by
+    simpa [execute, ExecMsg.takesCoins] using h
+  unfold receiveNft at h'
+  obtain ⟨_, h'⟩ := ite_err_ok h'
+  obtain ⟨_, h'⟩ := ite_err_ok h'
+  cases inner with
+  | none => cases h'
+  | some i =>
+    refine ⟨i, rfl, ?_⟩
+    simp only [rawValid] at h'
+    cases i <;> exact h'
+
+/-! ### `step` for the three deposit paths -/
+
+theorem dispatchAll_nil_eq {fail : Nat → Bool} {w w2 : World} {i : Nat}
+    (h : dispatchAll fail w [] i = some w2) : w2 = w := by
+  simp only [dispatchAll, Option.some.injEq] at h
+  exact h.symm
+
+/-- an accepted direct deposit: the bank moved the attached coins from `x` to the marketplace, the
+    handler accepted on the pre-state record table, no message was emitted, and the new world is
+    the old one with exactly the bank ledger and the record table replaced -/
+theorem step_deposit_native {w : World} {x : Nat} {funds : List Coin} {i : Inner}
+    (h : (step w (.exec x funds i.toExec)).2.ok = true) :
+    ∃ b m', bankSend w.bank x w.self funds = some b ∧ normalizedCheck (.native funds) = true ∧
+      DepositRecords w.mkt m' x ⟨funds, [], []⟩
+        (fun g nf => addTokens g (.native funds) = some nf) i ∧
+      step w (.exec x funds i.toExec) = ({ w with bank := b, mkt := m' }, ⟨true, none, []⟩) := by
+  unfold step at h ⊢
+  rcases stepF_cases (fail := noFault) (w := w) (op := .exec x funds i.toExec) rfl with
+    ⟨e, he⟩ | ⟨w1, m', msgs, w2, hD, hx, hd, hs⟩
+  · rw [he] at h; cases h
+  · rw [execute_toExec] at hx
+    obtain ⟨rfl, hn, hrec⟩ := depositFunds_spec hx
+    have := dispatchAll_nil_eq hd
+    subst this
+    rcases hD with ⟨rfl, _⟩ | ⟨b, hb, rfl⟩
+    · simp [normalizedCheck] at hn
+    · exact ⟨b, m', hb, hn, hrec, hs⟩
+
+/-- an accepted CW20 `Send`: the (honest) token contract moved `amount` from `x` to the marketplace
+    and called the hook; no message was emitted; exactly the token ledger and the record table
+    are replaced -/
+theorem step_deposit_cw20 {w : World} {t x amount : Nat} {inner : Option Inner}
+    (h : (step w (.send20 t x amount inner)).2.ok = true) :
+    ∃ i l m', inner = some i ∧ w.isHonest20 t = true ∧ amount ≠ 0 ∧
+      ledgerMove w.cw20 t x w.self amount = some l ∧
+      DepositRecords w.mkt m' x ⟨[], [⟨t, amount⟩], []⟩
+        (fun g nf => addTokens g (.cw20 ⟨t, amount⟩) = some nf) i ∧
+      step w (.send20 t x amount inner) = ({ w with cw20 := l, mkt := m' }, ⟨true, none, []⟩) := by
+  unfold step at h ⊢
+  rcases stepF_cases (fail := noFault) (w := w) (op := .send20 t x amount inner) rfl with
+    ⟨e, he⟩ | ⟨w1, m', msgs, w2, hD, hx, hd, hs⟩
+  · rw [he] at h; cases h
+  · obtain ⟨i, rfl, hx2⟩ := execute_receive_ok hx
+    obtain ⟨rfl, hn, hrec⟩ := depositFunds_spec hx2
+    have := dispatchAll_nil_eq hd
+    subst this
+    obtain ⟨hh, l, hl, rfl⟩ := hD
+    exact ⟨i, l, m', rfl, hh, by simpa [normalizedCheck] using hn, hl, hrec, hs⟩
+
+/-- an accepted CW721 `SendNft`: the (honest) collection made the marketplace the owner of the NFT
+    `x` owned and called the hook; no message was emitted; exactly the NFT ledger and the record
+    table are replaced -/
+theorem step_deposit_nft {w : World} {c x tid : Nat} {inner : Option Inner}
+    (h : (step w (.send721 c x tid inner)).2.ok = true) :
+    ∃ i m', inner = some i ∧ w.isHonest721 c = true ∧ alookup (c, tid) w.nft = some x ∧
+      DepositRecords w.mkt m' x ⟨[], [], [⟨c, tid⟩]⟩ (fun g nf => nf = addNft g ⟨c, tid⟩) i ∧
+      step w (.send721 c x tid inner) =
+        ({ w with nft := lset w.nft (c, tid) w.self, mkt := m' }, ⟨true, none, []⟩) := by
+  unfold step at h ⊢
+  rcases stepF_cases (fail := noFault) (w := w) (op := .send721 c x tid inner) rfl with
+    ⟨e, he⟩ | ⟨w1, m', msgs, w2, hD, hx, hd, hs⟩
+  · rw [he] at h; cases h
+  · obtain ⟨i, rfl, hx2⟩ := execute_receiveNft_ok hx
+    obtain ⟨rfl, hrec⟩ := depositNft_spec hx2
+    have := dispatchAll_nil_eq hd
+    subst this
+    obtain ⟨hh, hown, rfl⟩ := hD
+    exact ⟨i, m', rfl, hh, hown, hrec, hs⟩
+
+theorem normalizedCheck_native {cs : List Coin} (h : normalizedCheck (.native cs) = true) :
+    cs ≠ [] ∧ (∀ c ∈ cs, c.amount ≠ 0) ∧ (keys cs).Nodup := by
+  simp only [normalizedCheck, Bool.and_eq_true, decide_eq_true_eq, allNonzero_iff] at h
+  refine ⟨?_, h.1.2, h.2⟩
+  intro e
+  rw [e] at h
+  simp at h
+
+/-- the id a deposit message names -/
+def Inner.id : Inner → Nat
+  | .createListing id _ => id
+  | .addToListing id => id
+  | .createBucket id => id
+  | .addToBucket id => id
+
+/-! ## §7 which token contracts and collections the records name, and who owns the records
+
+An invariant of the record tables that every accepted message preserves, as long as hook calls
+come from contracts satisfying `H20` / `H721` (used with "is an honest token / collection"): every
+CW20 entry of every record names a contract satisfying `H20`, every NFT a collection satisfying
+`H721`, and no record is owned by `self`. -/
+
+/-- every CW20 entry names a contract satisfying `H20`, every NFT a collection satisfying `H721` -/
+structure GBal.keysOk (H20 H721 : Nat → Prop) (g : GBal) : Prop where
+  cw20 : ∀ c ∈ g.cw20, H20 c.key
+  nfts : ∀ n ∈ g.nfts, H721 n.coll
+
+abbrev LOk (H20 H721 : Nat → Prop) (me : Nat) : (Nat × Nat) × Listing → Prop :=
+  fun p => GBal.keysOk H20 H721 p.2.forSale ∧ p.2.creator ≠ me
+abbrev BOk (H20 H721 : Nat → Prop) (me : Nat) : (Nat × Nat) × Bucket → Prop :=
+  fun p => GBal.keysOk H20 H721 p.2.funds ∧ p.2.owner ≠ me
+
+/-- every record's balance is `keysOk`, and no record is owned by `me` -/
+structure RecInv (H20 H721 : Nat → Prop) (me : Nat) (m : Market) : Prop where
+  lst : ∀ p ∈ m.listings, LOk H20 H721 me p
+  bkt : ∀ p ∈ m.buckets, BOk H20 H721 me p
+
+/-- the token contract a fungible deposit names (none for native coins) satisfies `H20` -/
+def Funds.tokenOk (H20 : Nat → Prop) : Funds → Prop
+  | .native _ => True
+  | .cw20 c => H20 c.key
+
+theorem GBal.keysOk.imp {H20 H721 H20' H721' : Nat → Prop} (h1 : ∀ a, H20 a → H20' a)
+    (h2 : ∀ a, H721 a → H721' a) {g : GBal} (h : GBal.keysOk H20 H721 g) : GBal.keysOk H20' H721' g :=
+  ⟨fun c hc => h1 _ (h.1 c hc), fun n hn => h2 _ (h.2 n hn)⟩
+
+theorem RecInv.imp {H20 H721 H20' H721' : Nat → Prop} (h1 : ∀ a, H20 a → H20' a)
+    (h2 : ∀ a, H721 a → H721' a) {me : Nat} {m : Market} (h : RecInv H20 H721 me m) :
+    RecInv H20' H721' me m :=
+  ⟨fun p hp => ⟨(h.lst p hp).1.imp h1 h2, (h.lst p hp).2⟩,
+   fun p hp => ⟨(h.bkt p hp).1.imp h1 h2, (h.bkt p hp).2⟩⟩
+
+/-- an upper bound for all expiry times of a listing table -/
+theorem expiry_le_sum {ls : List ((Nat × Nat) × Listing)} {p : (Nat × Nat) × Listing} (hp : p ∈ ls)
+    {e : Nat} (he : p.2.expiresAt = some e) : e ≤ (ls.map fun q => q.2.expiresAt.getD 0).sum := by
+  induction ls with
+  | nil => cases hp
+  | cons q ls ih =>
+    rw [List.map_cons, List.sum_cons]
+    rcases List.mem_cons.1 hp with rfl | hp
+    · rw [he]; simp
+    · have := ih hp; omega
+
+section recinv
+variable {H20 H721 : Nat → Prop}
+
+theorem forall_key_iff (H : Nat → Prop) (l : List Coin) : (∀ c ∈ l, H c.key) ↔ ∀ k ∈ keys l, H k := by
+  unfold keys
+  constructor
+  · intro h k hk
+    obtain ⟨c, hc, rfl⟩ := List.mem_map.1 hk
+    exact h c hc
+  · intro h c hc
+    exact h _ (List.mem_map.2 ⟨c, hc, rfl⟩)
+
+theorem keysOk_of_eq {g g' : GBal} (h : GBal.keysOk H20 H721 g) (h1 : keys g'.cw20 = keys g.cw20)
+    (h2 : g'.nfts = g.nfts) : GBal.keysOk H20 H721 g' := by
+  refine ⟨?_, by rw [h2]; exact h.2⟩
+  rw [forall_key_iff, h1, ← forall_key_iff]
+  exact h.1
+
+theorem fromBalance_keysOk {F : Funds} (hF : F.tokenOk H20) :
+    GBal.keysOk H20 H721 (fromBalance F) := by
+  cases F with
+  | native cs => exact ⟨fun c hc => (by cases hc), fun n hn => (by cases hn)⟩
+  | cw20 c =>
+    refine ⟨fun c' hc' => ?_, fun n hn => (by cases hn)⟩
+    simp only [fromBalance, List.mem_singleton] at hc'
+    subst hc'
+    exact hF
+
+theorem addTokens_keysOk {g nf : GBal} {F : Funds} (h : addTokens g F = some nf)
+    (hg : GBal.keysOk H20 H721 g) (hF : F.tokenOk H20) : GBal.keysOk H20 H721 nf := by
+  cases F with
+  | native cs =>
+    obtain ⟨_, h2, h3⟩ := addTokens_native h
+    exact keysOk_of_eq hg (by rw [h2]) h3
+  | cw20 c =>
+    simp only [addTokens] at h
+    split at h
+    · cases h
+    · rename_i n hn
+      simp only [Option.some.injEq] at h
+      subst h
+      refine ⟨?_, hg.2⟩
+      rw [forall_key_iff]
+      show ∀ k ∈ keys n, H20 k
+      rw [addCoin_keys hn]
+      have h1 := (forall_key_iff H20 g.cw20).1 hg.1
+      split
+      · exact h1
+      · intro k hk
+        rcases List.mem_append.1 hk with hk | hk
+        · exact h1 k hk
+        · simp only [List.mem_singleton] at hk
+          subst hk
+          exact hF
+
+theorem addNft_keysOk {g : GBal} {n : Nft} (hg : GBal.keysOk H20 H721 g) (hn : H721 n.coll) :
+    GBal.keysOk H20 H721 (addNft g n) := by
+  refine ⟨hg.1, fun n' hn' => ?_⟩
+  simp only [addNft, List.mem_append, List.mem_singleton] at hn'
+  rcases hn' with hn' | rfl
+  · exact hg.2 n' hn'
+  · exact hn
+
+theorem calcFeeCoin_keysOk {fd : Nat} {g g' : GBal} {fee : Option Coin}
+    (h : calcFeeCoin fd g = some (fee, g')) (hg : GBal.keysOk H20 H721 g) :
+    GBal.keysOk H20 H721 g' := by
+  rcases calcFeeCoin_cases h with ⟨_, _, rfl⟩ | ⟨_, _, _, _, rfl⟩ | ⟨_, _, _, _, rfl⟩
+  · exact hg
+  · exact hg
+  · exact ⟨hg.1, hg.2⟩
+
+theorem sideRoyalties_keysOk {env : Env} {ra : Nat} {cols : List Nat} {bal g : GBal}
+    {ms : List OutMsg} {s : Nat} (h : sideRoyalties env ra cols bal = .ok g ms s)
+    (hg : GBal.keysOk H20 H721 bal) : GBal.keysOk H20 H721 g := by
+  unfold sideRoyalties at h
+  split at h
+  · cases h; exact hg
+  · split at h
+    · cases h
+    · obtain ⟨_, _, rfl, _⟩ := royalties_closed h
+      exact keysOk_of_eq hg (keys_map_royRem _ _) rfl
+
+/-- what the handler behind each message is (the coin gate passed) -/
+theorem execute_ok_handler {m : Market} {env : Env} {s : Nat} {f : List Coin} {msg : ExecMsg}
+    {r : Market × List OutMsg} (h : execute m env s f msg = .ok r) :
+    (match msg with
+      | .feeCycle => cycleFee m env
+      | .receive sd a i => receive m env s f sd a i
+      | .receiveNft sd t i => receiveNft m env s f sd t i
+      | .createListing id c => createListing m s (.native f) c id
+      | .addToListing id => addToListing m (.native f) s id
+      | .changeAsk id ask => changeAsk m s id ask
+      | .finalize id sec => finalize m env s id sec
+      | .deleteListing id => deleteListing m env s id
+      | .createBucket id => createBucket m (.native f) s id
+      | .addToBucket id => addToBucket m (.native f) s id
+      | .removeBucket id => withdrawBucket m env s id
+      | .buy lid bid => buy m env s lid bid
+      | .withdrawPurchased lid => withdrawPurchased m env s lid) = .ok r := by
+  unfold execute at h
+  obtain ⟨_, h⟩ := ite_err_ok h
+  exact h
+
+theorem receive_ok_deposit {m : Market} {env : Env} {t : Nat} {f : List Coin} {sd : RawAddr}
+    {amount : Nat} {inner : Option Inner} {r : Market × List OutMsg}
+    (h : receive m env t f sd amount inner = .ok r) :
+    ∃ x i, sd = .valid x ∧ inner = some i ∧ depositFunds m (.cw20 ⟨t, amount⟩) x i = .ok r := by
+  unfold receive at h
+  obtain ⟨_, h⟩ := ite_err_ok h
+  obtain ⟨_, h⟩ := ite_err_ok h
+  cases inner with
+  | none => cases h
+  | some i =>
+    cases sd with
+    | invalid => cases h
+    | valid x =>
+      refine ⟨x, i, rfl, rfl, ?_⟩
+      simp only [rawValid] at h
+      cases i <;> exact h
+
+theorem receiveNft_ok_deposit {m : Market} {env : Env} {c : Nat} {f : List Coin} {sd : RawAddr}
+    {tid : Nat} {inner : Option Inner} {r : Market × List OutMsg}
+    (h : receiveNft m env c f sd tid inner = .ok r) :
+    ∃ x i, sd = .valid x ∧ inner = some i ∧ depositNft m ⟨c, tid⟩ x i = .ok r := by
+  unfold receiveNft at h
+  obtain ⟨_, h⟩ := ite_err_ok h
+  obtain ⟨_, h⟩ := ite_err_ok h
+  cases inner with
+  | none => cases h
+  | some i =>
+    cases sd with
+    | invalid => cases h
+    | valid x =>
+      refine ⟨x, i, rfl, rfl, ?_⟩
+      simp only [rawValid] at h
+      cases i <;> exact h
+
+/-- a deposit keeps `RecInv` if the deposit itself is fine and the depositor is not `self` -/
+theorem DepositRecords.recInv {m m' : Market} {x self : Nat} {g0 : GBal} {P : GBal → GBal → Prop}
+    {i : Inner} (h : DepositRecords m m' x g0 P i) (hR : RecInv H20 H721 self m)
+    (hx : x ≠ self) (h0 : GBal.keysOk H20 H721 g0)
+    (hP : ∀ g nf, P g nf → GBal.keysOk H20 H721 g → GBal.keysOk H20 H721 nf) :
+    RecInv H20 H721 self m' := by
+  cases i with
+  | createBucket id =>
+    obtain ⟨_, _, rfl⟩ := h
+    exact ⟨hR.lst, forall_mem_ainsert
+      (P := BOk H20 H721 self) hR.bkt ⟨h0, hx⟩⟩
+  | addToBucket id =>
+    obtain ⟨r, nf, h1, h2, h3, rfl⟩ := h
+    have := hR.bkt _ (alookup_some_mem h1)
+    exact ⟨hR.lst, forall_mem_ainsert
+      (P := BOk H20 H721 self) hR.bkt
+      ⟨hP _ _ h3 this.1, this.2⟩⟩
+  | createListing id c =>
+    obtain ⟨wl, ask, _, _, _, _, rfl⟩ := h
+    exact ⟨forall_mem_ainsert
+      (P := LOk H20 H721 self) hR.lst ⟨h0, hx⟩, hR.bkt⟩
+  | addToListing id =>
+    obtain ⟨l, nf, h1, h2, _, _, h5, rfl⟩ := h
+    have := hR.lst _ (alookup_some_mem h1)
+    exact ⟨forall_mem_ainsert
+      (P := LOk H20 H721 self) hR.lst
+      ⟨hP _ _ h5 this.1, this.2⟩, hR.bkt⟩
+
+theorem depositFunds_recInv {m m' : Market} {F : Funds} {x self : Nat} {i : Inner}
+    {out : List OutMsg} (h : depositFunds m F x i = .ok (m', out)) (hR : RecInv H20 H721 self m)
+    (hx : x ≠ self) (hF : F.tokenOk H20) : RecInv H20 H721 self m' :=
+  (depositFunds_spec h).2.2.recInv hR hx (fromBalance_keysOk hF)
+    (fun _ _ hP hg => addTokens_keysOk hP hg hF)
+
+theorem depositNft_recInv {m m' : Market} {n : Nft} {x self : Nat} {i : Inner}
+    {out : List OutMsg} (h : depositNft m n x i = .ok (m', out)) (hR : RecInv H20 H721 self m)
+    (hx : x ≠ self) (hn : H721 n.coll) : RecInv H20 H721 self m' := by
+  refine (depositNft_spec h).2.recInv hR hx ⟨fun c hc => (by cases hc), fun n' hn' => ?_⟩
+    (fun g nf hP hg => by rw [hP]; exact addNft_keysOk hg hn)
+  simp only [fromNft, List.mem_singleton] at hn'
+  subst hn'
+  exact hn
+
+/-- **Every accepted message preserves `RecInv`**, provided a direct message is not signed by
+    `self`, and a hook call comes from a contract satisfying `H20` (resp. `H721`) and does not
+    name `self` as the depositor. -/
+theorem execute_recInv {m m' : Market} {env : Env} {s self : Nat} {f : List Coin} {msg : ExecMsg}
+    {out : List OutMsg} (h : execute m env s f msg = .ok (m', out)) (hR : RecInv H20 H721 self m)
+    (hmsg : match msg with
+      | .receive sd _ _ => H20 s ∧ sd ≠ .valid self
+      | .receiveNft sd _ _ => H721 s ∧ sd ≠ .valid self
+      | _ => s ≠ self) : RecInv H20 H721 self m' := by
+  have h' := execute_ok_handler h
+  cases msg with
+  | feeCycle =>
+    simp only at h'
+    unfold cycleFee at h'
+    dsimp only at h'
+    obtain ⟨_, h'⟩ := ite_err_ok h'
+    simp only [Except.ok.injEq, Prod.mk.injEq] at h'
+    obtain ⟨rfl, _⟩ := h'
+    exact ⟨hR.lst, hR.bkt⟩
+  | receive sd a i =>
+    simp only at h' hmsg
+    obtain ⟨x, i', rfl, rfl, hd⟩ := receive_ok_deposit h'
+    exact depositFunds_recInv hd hR (fun e => hmsg.2 (by rw [e])) hmsg.1
+  | receiveNft sd t i =>
+    simp only at h' hmsg
+    obtain ⟨x, i', rfl, rfl, hd⟩ := receiveNft_ok_deposit h'
+    exact depositNft_recInv hd hR (fun e => hmsg.2 (by rw [e])) hmsg.1
+  | createListing id c =>
+    exact depositFunds_recInv (i := .createListing id c) h' hR hmsg trivial
+  | addToListing id =>
+    exact depositFunds_recInv (i := .addToListing id) h' hR hmsg trivial
+  | createBucket id =>
+    exact depositFunds_recInv (i := .createBucket id) h' hR hmsg trivial
+  | addToBucket id =>
+    exact depositFunds_recInv (i := .addToBucket id) h' hR hmsg trivial
+  | changeAsk id ask =>
+    simp only at h'
+    unfold changeAsk at h'
+    split at h'
+    · cases h'
+    rename_i l hl
+    obtain ⟨_, h'⟩ := ite_err_ok h'
+    obtain ⟨_, h'⟩ := ite_err_ok h'
+    obtain ⟨_, h'⟩ := ite_err_ok h'
+    obtain ⟨_, h'⟩ := ite_err_ok h'
+    split at h'
+    · cases h'
+    simp only [Except.ok.injEq, Prod.mk.injEq] at h'
+    obtain ⟨rfl, _⟩ := h'
+    have t := hR.lst _ (alookup_some_mem hl)
+    exact ⟨forall_mem_ainsert (P := LOk H20 H721 self) hR.lst ⟨t.1, t.2⟩, hR.bkt⟩
+  | finalize id sec =>
+    simp only at h'
+    unfold finalize at h'
+    split at h'
+    · cases h'
+    rename_i l hl
+    obtain ⟨_, h'⟩ := ite_err_ok h'
+    obtain ⟨_, h'⟩ := ite_err_ok h'
+    obtain ⟨_, h'⟩ := ite_err_ok h'
+    obtain ⟨_, h'⟩ := ite_err_ok h'
+    obtain ⟨_, h'⟩ := ite_err_ok h'
+    dsimp only at h'
+    simp only [Except.ok.injEq, Prod.mk.injEq] at h'
+    obtain ⟨rfl, _⟩ := h'
+    have t := hR.lst _ (alookup_some_mem hl)
+    exact ⟨forall_mem_ainsert (P := LOk H20 H721 self) hR.lst ⟨t.1, t.2⟩, hR.bkt⟩
+  | deleteListing id =>
+    obtain ⟨_, _, _, _, _, rfl, _⟩ := deleteListing_spec h'
+    exact ⟨forall_mem_aerase
+      (P := LOk H20 H721 self) hR.lst _, hR.bkt⟩
+  | removeBucket id =>
+    obtain ⟨_, _, _, rfl, _⟩ := withdrawBucket_spec h'
+    exact ⟨hR.lst, forall_mem_aerase
+      (P := BOk H20 H721 self) hR.bkt _⟩
+  | withdrawPurchased lid =>
+    obtain ⟨_, _, _, _, _, rfl, _⟩ := withdrawPurchased_spec h'
+    exact ⟨forall_mem_aerase
+      (P := LOk H20 H721 self) hR.lst _, hR.bkt⟩
+  | buy lid bid =>
+    obtain ⟨k, l, b, lfee, lbal, bfee, bbal, ra, fb, msgs1, s1, fl, msgs2, s2, hb, hl, _, _, e1, e2, _,
+      hr1, hr2, rfl, _⟩ := buy_ok_inv h'
+    have hL := hR.lst _ (findById_some hl).2
+    have hB := hR.bkt _ (alookup_some_mem hb)
+    refine ⟨forall_mem_ainsert
+      (P := LOk H20 H721 self)
+      (forall_mem_aerase (P := LOk H20 H721 self)
+        hR.lst _) ⟨sideRoyalties_keysOk hr2 (calcFeeCoin_keysOk e1 hL.1), hmsg⟩,
+      forall_mem_ainsert (P := BOk H20 H721 self)
+      (forall_mem_aerase (P := BOk H20 H721 self)
+        hR.bkt _) ⟨sideRoyalties_keysOk hr1 (calcFeeCoin_keysOk e2 hB.1), hL.2⟩⟩
+
+end recinv
 
 end Fuzion
